@@ -45,6 +45,7 @@ def run(tier, seed):
     if not ok:
         c.notes.append("translator failed: " + V.tail(log, 10))
     proved = c.prove(PROPS)
+    c.prove("props/C19b.v")      # native call = jq def with $value parameters in the built-in argument order (coq/c01vm2/NativeAsDef.v)
     if not proved:
         refs = ambient_delta()
         c.notes.append("regenerated ambient references: %s" % (refs,))
